@@ -66,8 +66,6 @@ class Tok:
         n = self.i()
         if n < 0:
             return dict(tag=tag, shape=shape, data=None, scalar=False)
-        if len(shape) == 0:
-            return dict(tag=tag, shape=shape, data=[], scalar=False)
         data = [self.num(tag) for _ in range(n)]
         return dict(tag=tag, shape=shape, data=data, scalar=False)
 
